@@ -23,7 +23,7 @@ type C05Case struct {
 var _ = Register("C05", func() interface{} { return new(C05Case) }, func(c interface{}) string { return c05Oracle(c.(*C05Case)) })
 
 var c05Decl = &GenCfg{Depth: 0, MaxOpts: 3, MaxGroups: 2, NestGroups: 2, Kinds: append(append([]Kind{}, AllArgKinds...), KBool, KBoolSlice, KBoolPtr),
-	Ns: true, EnvNs: true, Req: 0, Choices: true, Defaults: true, Initial: true, Bases: true, NonASCII: true, NsDelims: []string{"-"}}
+	Ns: true, EnvNs: true, Req: 0, Choices: true, Defaults: true, Initial: true, Bases: true, NonASCII: true, NsDelims: []string{"-"}, FieldPool: true}
 
 func genC05(t *rapid.T) *C05Case {
 	d := genDecl(t, c05Decl)
